@@ -2,6 +2,7 @@
 mod asm;
 mod campaign;
 mod compare;
+mod components;
 mod db;
 mod faults;
 mod monitors;
